@@ -390,11 +390,11 @@ func reproduces(worker, prop string, rf *replayFile, class, key string) (*runRec
 }
 
 // minimise shrinks the choice stream while the same (class,key) recurs.
-func minimise(worker, prop string, rf *replayFile, deadline time.Time) (best *replayFile, tried int) {
+func minimise(worker, prop string, rf *replayFile, deadline time.Time, maxTries int) (best *replayFile, tried int) {
 	class, key := rf.Class, rf.Key
 	cur := *rf
 	try := func(ch []uint32) bool {
-		if time.Now().After(deadline) {
+		if time.Now().After(deadline) || tried >= maxTries {
 			return false
 		}
 		tried++
@@ -476,6 +476,44 @@ func minimise(worker, prop string, rf *replayFile, deadline time.Time) (best *re
 		}
 	}
 	return &cur, tried
+}
+
+// shrinkInProcess lets a worker minimise a functional violation inside one process (thousands of candidates per second).
+func shrinkInProcess(worker, prop string, rf *replayFile) (*replayFile, int) {
+	workerMu.Lock()
+	workerSeq++
+	id := workerSeq
+	workerMu.Unlock()
+	inPath := filepath.Join(buildDir(), fmt.Sprintf("shr-%s-%d.json", prop, id))
+	outPath := filepath.Join(buildDir(), fmt.Sprintf("shr-%s-%d.out", prop, id))
+	raw, _ := json.Marshal(rf)
+	os.WriteFile(inPath, raw, 0o644)
+	defer os.Remove(inPath)
+	defer os.Remove(outPath)
+	raceLog := filepath.Join(buildDir(), "race", fmt.Sprintf("%s-s%d", prop, id))
+	out, err := runCmd(root, []string{"GORACE=log_path=" + raceLog + " halt_on_error=0", "GOMEMLIMIT=3GiB"}, worker, "-prop", prop, "-shrink", inPath, "-npoints", strconv.Itoa(len(pointTable)), "-out", outPath)
+	matches, _ := filepath.Glob(raceLog + ".*")
+	for _, m := range matches {
+		os.Remove(m)
+	}
+	if err != nil {
+		fmt.Printf("note: in-process minimisation failed (%v), keeping the original stream\n%s", err, out)
+		return rf, 0
+	}
+	b, _ := os.ReadFile(outPath)
+	var r struct {
+		Choices []uint32 `json:"choices"`
+		Tried   int      `json:"tried"`
+	}
+	if json.Unmarshal(bytes.TrimSpace(b), &r) != nil {
+		return rf, 0
+	}
+	c := *rf
+	c.Choices = r.Choices
+	if c.Choices == nil {
+		c.Choices = []uint32{}
+	}
+	return &c, r.Tried
 }
 
 func loadKnown() *knownFile {
@@ -779,7 +817,12 @@ func main() {
 			g.first = v
 		}
 	}
-	sort.Strings(order)
+	sort.Slice(order, func(i, j int) bool {
+		if groups[order[i]].count != groups[order[j]].count {
+			return groups[order[i]].count > groups[order[j]].count
+		}
+		return order[i] < order[j]
+	})
 	exit := 0
 	knownSeen := 0
 	var vioList []map[string]any
@@ -796,7 +839,7 @@ func main() {
 			knownSeen++
 			continue
 		}
-		if reported >= 6 {
+		if reported >= 3 {
 			fmt.Printf("note: further violation group %s/%s (%d runs) not minimised (cap)\n", g.class, g.key, g.count)
 			exit = 1
 			continue
@@ -824,7 +867,13 @@ func main() {
 		}
 		rf.Hash = r.Hash
 		origLen := len(rf.Choices)
-		best, tried := minimise(worker, prop, rf, time.Now().Add(minDeadlinePer))
+		var best *replayFile
+		var tried int
+		if g.class == "data_race" {
+			best, tried = minimise(worker, prop, rf, time.Now().Add(minDeadlinePer), 60)
+		} else {
+			best, tried = shrinkInProcess(worker, prop, rf)
+		}
 		// final replay: verbose trace, and it must reproduce
 		fr, err := replayOnce(worker, prop, best, true)
 		if err != nil || !same(fr, g.class, g.key) {
